@@ -54,7 +54,7 @@ pub const STUB_NET: &str = "transport = in-memory simnet link (seeded latency, b
 pub fn dynamic_runs(id: &str, tier: &str) -> u64 {
     match id {
         "C06" => c06::space_runs(if tier == "thorough" { 600 } else { 30 }),
-        "C11" => c11::space_runs(if tier == "thorough" { 2000 } else { 60 }),
+        "C11" => c11::space_runs(if tier == "thorough" { 2000 } else { 180 }),
         _ => 1000,
     }
 }
